@@ -55,8 +55,55 @@ def run_units():
     return out
 
 
+def run_discipline_units():
+    """snapshot sharing relies on an append-only discipline: a GrowableBuffer that is a data member of a builder
+    (and may therefore be shared with earlier snapshots) is only ever modified through append() and clear()
+    (clear allocates a fresh buffer); set_length()/set_reserved() are applied to freshly created locals only.
+    Checked on the AST of every method of src/libawkward/builder/*.cpp."""
+    import glob
+    out = []
+    files = sorted(glob.glob(os.path.join(cast.REPO, "src", "libawkward", "builder", "*.cpp")))
+    for path in files:
+        base = os.path.basename(path)
+        if base in ("GrowableBuffer.cpp", "ArrayBuilderOptions.cpp"):
+            continue
+        cls = base[:-4]
+        res = {"unit": "builder/%s (append-only discipline)" % base, "obligations": [], "errors": []}
+        try:
+            r = cast.extract_file(path, filt=cls, tolerant=True)
+        except Exception as ex:
+            res["errors"].append("extraction failed: %r" % (ex,))
+            out.append(res)
+            continue
+        n = 0
+        for f in r["functions"]:
+            if f.get("body") is None:
+                continue
+            bad = []
+
+            def walk(x):
+                if isinstance(x, list):
+                    if x and x[0] == "mcall" and x[2] in ("set_length", "set_reserved"):
+                        obj = x[1]
+                        while isinstance(obj, list) and obj and obj[0] in ("cast", "member"):
+                            obj = obj[1]
+                        if isinstance(obj, list) and obj and obj[0] == "v" and obj[1].endswith("_"):
+                            bad.append("%s.%s(...)" % (obj[1], x[2]))
+                    for y in x:
+                        walk(y)
+            walk(f["body"])
+            res["obligations"].append({"id": "%s:%s:B.appendonly#%d" % (base, f["name"], n), "unit": res["unit"], "kind": "B.appendonly",
+                                       "label": f["name"], "line": f.get("line"),
+                                       "desc": "%s::%s never shrinks or re-reserves a member GrowableBuffer in place" % (cls, f["name"]),
+                                       "status": "refuted" if bad else "proved", "time": 0.0, "backend": "syntactic",
+                                       "model": ", ".join(bad) if bad else None, "auto": False})
+            n += 1
+        out.append(res)
+    return out
+
+
 def engine(pid, tier, seed, known):
-    res = run_units()
+    res = run_units() + run_discipline_units()
     out = {"obligations": [], "functions": {}, "errors": [], "notes": [], "bounded": [], "coverage": {"builder_units": len(res)}}
     for r in res:
         out["functions"][r["unit"]] = {"obligations": len(r["obligations"]), "exits": r.get("exits")}
